@@ -496,8 +496,20 @@ func (fx *Fx) coins(v ssa.Value, fr *Frame, depth int) []CoinAmt {
 			return fx.coins(x.Edges[i], fr, depth+1)
 		}
 		return leaf()
+	case *ssa.Field:
+		if sv, sfr := fx.structField(x.X, x.Field, fr, 0); sv != nil {
+			return fx.coins(sv, sfr, depth+1)
+		}
+		return leaf()
 	case *ssa.UnOp:
 		if x.Op == token.MUL {
+			if fa, ok := x.X.(*ssa.FieldAddr); ok {
+				if a, isAlloc := fa.X.(*ssa.Alloc); isAlloc {
+					if sv, sfr := fx.structFieldOfAlloc(a, fa.Field, fr, 0); sv != nil {
+						return fx.coins(sv, sfr, depth+1)
+					}
+				}
+			}
 			if a, ok := x.X.(*ssa.Alloc); ok {
 				var sv ssa.Value
 				n := 0
@@ -1167,4 +1179,108 @@ func (fx *Fx) leavesOf(r Rat) map[string]string {
 	visitPoly(r.N)
 	visitPoly(r.D)
 	return out
+}
+
+// structField: the value stored into field #idx of the struct value v where it is
+// assembled - in a local, in the callee that returns it (one successful return), or
+// in the caller that passes it - together with the frame to read it in. (nil, nil)
+// when the construction is not understood.
+func (fx *Fx) structField(v ssa.Value, idx int, fr *Frame, depth int) (ssa.Value, *Frame) {
+	if depth > 8 || v == nil {
+		return nil, nil
+	}
+	switch x := v.(type) {
+	case *ssa.UnOp:
+		if x.Op == token.MUL {
+			if a, ok := x.X.(*ssa.Alloc); ok {
+				return fx.structFieldOfAlloc(a, idx, fr, depth+1)
+			}
+		}
+	case *ssa.Extract:
+		if c, ok := x.Tuple.(*ssa.Call); ok {
+			return fx.structFieldOfCall(c, x.Index, idx, fr, depth+1)
+		}
+	case *ssa.Call:
+		return fx.structFieldOfCall(x, 0, idx, fr, depth+1)
+	case *ssa.Parameter:
+		if fr != nil && fr.Call != nil {
+			fn := x.Parent()
+			for i, p := range fn.Params {
+				if p != x {
+					continue
+				}
+				c := fr.Call.Common()
+				j := i
+				if c.IsInvoke() {
+					j--
+				}
+				if j >= 0 && j < len(c.Args) {
+					return fx.structField(c.Args[j], idx, fr.Parent, depth+1)
+				}
+			}
+		}
+	case *ssa.Phi:
+		b := x.Block()
+		fx.phis[b] = true
+		if i, ok := fx.choice[b]; ok && i < len(x.Edges) {
+			return fx.structField(x.Edges[i], idx, fr, depth+1)
+		}
+	}
+	return nil, nil
+}
+
+func (fx *Fx) structFieldOfAlloc(a *ssa.Alloc, idx int, fr *Frame, depth int) (ssa.Value, *Frame) {
+	if a.Referrers() == nil {
+		return nil, nil
+	}
+	var fieldVal, whole ssa.Value
+	nf, nw := 0, 0
+	for _, r := range *a.Referrers() {
+		switch y := r.(type) {
+		case *ssa.FieldAddr:
+			if y.Field != idx || y.Referrers() == nil {
+				continue
+			}
+			for _, r2 := range *y.Referrers() {
+				if st, ok := r2.(*ssa.Store); ok && st.Addr == y {
+					fieldVal = st.Val
+					nf++
+				}
+			}
+		case *ssa.Store:
+			if y.Addr == a {
+				whole = y.Val
+				nw++
+			}
+		}
+	}
+	switch {
+	case nf == 1 && nw == 0:
+		return fieldVal, fr
+	case nf == 0 && nw == 1:
+		return fx.structField(whole, idx, fr, depth+1)
+	}
+	return nil, nil
+}
+
+func (fx *Fx) structFieldOfCall(c *ssa.Call, res, idx int, fr *Frame, depth int) (ssa.Value, *Frame) {
+	g := c.Common().StaticCallee()
+	if g == nil || g.Blocks == nil || !isIrismodFunc(g) || onChain(fr, g) {
+		return nil, nil
+	}
+	nfr := &Frame{Fn: g, Parent: fr, Call: c, Depth: frameDepth(fr)}
+	var got ssa.Value
+	var gfr *Frame
+	n := 0
+	for _, ret := range returnsOf(g) {
+		if isFailureReturn(ret) || res >= len(ret.Results) {
+			continue
+		}
+		n++
+		got, gfr = fx.structField(ret.Results[res], idx, nfr, depth+1)
+	}
+	if n == 1 {
+		return got, gfr
+	}
+	return nil, nil
 }
